@@ -165,3 +165,11 @@ V('c11-l10-on-refactored-set', 'C11', None, None, None, rule='C11-L10', patch='b
   ('hl7apy/core.py', "        self.element.set_parent_to_traversal()\n", "        pass\n")])
 V('c02-m-second-header-segment', 'C02', 'hl7apy/parser.py', "    text = text[4:] if segment_name != 'MSH' else text[3:]",
   "    text = text[4:] if segment_name not in ('MSH', 'BHS', 'FHS') else text[3:]", rule='C02-M')
+
+# ---------------------------------------------------------------- C11-L4b: add overrides change the owner for real children only
+V('c11-l4b-regression-mark-moves-on-read', 'C11', 'hl7apy/core.py',
+  "        if obj.name and self.allow_infinite_children and obj.traversal_parent is None:",
+  "        if obj.name and self.allow_infinite_children:", rule='C11-L4b')
+V('twin-c11-l4b-early-return', 'C11', 'hl7apy/core.py',
+  "        if obj.name and self.allow_infinite_children and obj.traversal_parent is None:",
+  "        if obj.traversal_parent is not None:\n            return\n        if obj.name and self.allow_infinite_children:", expect='clean')
